@@ -84,9 +84,19 @@ def model_stage(tier: str) -> dict:
             raise MachineryError("manual-stepping run failed:\n" + "\n".join(mn.out.splitlines()[-20:]))
         manual = {"cfg": "HMS_manual.cfg", "distinct_states": mn.distinct, "violated": mn.violated, "wall_s": round(mn.wall_s, 1)}
         r.violated.extend(mn.violated)
+        # protocol variants inside a deme's metaepoch that no property excludes (met in behaviour-preserving refactorings and
+        # accepted by the trace specification): every clause must hold for them too, and both must have been taken
+        vr = run_tlc("MC_HMS", "HMS_variants.cfg", d / "variants", workers=8, timeout=2400, heap="4g", coverage=True)
+        if not vr.ok and not vr.violated:
+            raise MachineryError("protocol-variants run failed:\n" + "\n".join(vr.out.splitlines()[-20:]))
+        vcov = {a: list(vr.coverage.get(a, (0, 0))) for a in ("LscFirst", "SelfStopSilently")}
+        variants = {"cfg": "HMS_variants.cfg", "distinct_states": vr.distinct, "violated": vr.violated, "wall_s": round(vr.wall_s, 1),
+                    "taken": vcov}
+        r.violated.extend(vr.violated)
         wit = _witnesses(d)
         unreachable = [f"model witness not reachable: {n} ({WITNESSES[n]})" for n, v in wit.items() if not v["reachable"]]
-        return {"manual_stepping": manual, "simulation": sim, "liveness": live, "witnesses": wit, "unreachable_witnesses": unreachable,
+        unreachable += [f"protocol variant never taken in HMS_variants.cfg: {a}" for a, (dist, tot) in vcov.items() if tot == 0]
+        return {"manual_stepping": manual, "protocol_variants": variants, "simulation": sim, "liveness": live, "witnesses": wit, "unreachable_witnesses": unreachable,
                 "cfg": cfg, "generated": r.generated, "distinct": r.distinct, "depth": r.depth,
                 "violated": r.violated, "tail": r.out[-2500:] if r.violated else "",
                 "action_coverage": cov, "untaken_actions": untaken, "wall_s": round(r.wall_s, 1),
